@@ -59,6 +59,7 @@ class SdrDevice(object):
         self.valid = {REPO: False, DEV: False}
         self.n = 0
         self.log = []                             # (netfn, cmd, request bytes, response bytes)
+        self.cfg_tokens_initial = self.cfg_tokens()   # configuration text of the initial state
 
     # ---- configuration <-> protocol text (shared with the Lean driver) -----------------
     def cfg_tokens(self):
